@@ -7,7 +7,7 @@ from ..rules import batching, bind, keys
 from ..rules.match import m_arrcall, m_binop, product_factors
 from ..rules.siblings import swap_map
 from ..rules.trialsib import HD, WD, Sib, key, nelec, restricted_default
-from ..symex import (Evaluator, call_parts, const, getitem, is_const, match_scan, show, strip_wrappers,
+from ..symex import (Evaluator, array_fn, call_parts, const, getitem, is_const, match_scan, show, strip_wrappers,
                      subterms, sym)
 from .c04 import input_ham_keys
 
@@ -186,7 +186,15 @@ def auto_fd(ctx):
                           f"{[show(x) for x in steps]}")
         ctx.ob("FD-1", f"wave_function_auto.{meth}: symmetric second-difference stencil", ok, why, fi)
         # combination (p - 2*z + m) / eps / eps
-        d2 = fr.env.vars.get("d_2_overlap")
+        # the second difference is what is summed over the Cholesky vectors: the argument of the sum(...) that
+        # contains all three scans
+        d2 = None
+        for x in subterms(R):
+            if x.op == "call" and array_fn(x) == "sum":
+                a0 = call_parts(x)[1][0] if call_parts(x)[1] else None
+                if a0 is not None and len([y for y in subterms(a0) if y.op == "call" and match_scan(y) is not None]) == 3:
+                    if d2 is None or len(list(subterms(a0))) < len(list(subterms(d2))):
+                        d2 = a0
         okc = False
         if d2 is not None and len(scans) == 3:
             from ..rules.gvn import GVN, f_key
